@@ -8,6 +8,7 @@ require (
 	github.com/IrineSistiana/mosdns/v5 v5.0.0
 	github.com/klauspost/compress v1.17.11
 	github.com/miekg/dns v1.1.62
+	github.com/quic-go/quic-go v0.48.2
 )
 
 require (
@@ -27,7 +28,6 @@ require (
 	github.com/prometheus/common v0.61.0 // indirect
 	github.com/prometheus/procfs v0.15.1 // indirect
 	github.com/quic-go/qpack v0.5.1 // indirect
-	github.com/quic-go/quic-go v0.48.2 // indirect
 	github.com/sagikazarmark/slog-shim v0.1.0 // indirect
 	github.com/spf13/afero v1.11.0 // indirect
 	github.com/spf13/cast v1.7.0 // indirect
